@@ -298,17 +298,16 @@ def gen_maze(r, avoid, idx):
                 # two-way branch on an input bit
                 j2 = r.choice([x for x in later if x != j])
                 bit = 1 << r.randrange(0, 10)
-                kind = r.random()
-                if kind < 0.5:
+                l1 = loc()
+                if r.random() < 0.5:
                     ops.append(["raw", andi(T1, A2, bit).hex()])
-                    ops.append([r.choice(["beq", "bne"]), T1, 0, B(j2)])
+                    ops.append([r.choice(["beq", "bne"]), T1, 0, l1])
                 else:
-                    l1 = loc()
                     ops.append(["raw", andi(A5, A2, bit).hex()])
                     ops.append([r.choice(["cbeqz", "cbnez"]), A5, l1])
-                    goto(ops, j)
-                    ops.append(["label", l1])
-                    j = j2
+                goto(ops, j)
+                ops.append(["label", l1])
+                j = j2
             goto(ops, j)
         units.append((B(i), ops))
     for k in range(nsub):
@@ -378,8 +377,17 @@ def gen_maze(r, avoid, idx):
     dops.append(["raw", bytes(8).hex()])
     objops[r.randrange(nobj)] += dops
     globals_ = sorted({units[u][0] for u in range(len(units))} | {TAB, JT})
-    # layout
-    lay = gen_layout(r, two_code, avoid)
+    # layout (section sizes are known: sum of the op sizes plus alignment padding between objects)
+    sizes = {}
+    for ops in objops:
+        cur = None
+        for op in ops:
+            if op[0] == "sec":
+                cur = op[1]
+                sizes[cur] = (sizes.get(cur, 0) + 3) // 4 * 4
+            elif cur is not None:
+                sizes[cur] = sizes.get(cur, 0) + ops_size([op]) + (3 if op[0] == "align" else 0)
+    lay = gen_layout(r, two_code and "code2" in sizes, avoid, sizes=sizes)
     inputs = [r.randrange(0, 1 << 10) for _ in range(3)] + [0]
     return {"kind": "maze", "index": idx, "objects": objops, "globals": globals_, "layout": lay, "entry": B(0),
             "inputs": inputs, "aimed_at_boundary": boundary, "features": {"two_code": two_code, "nobj": nobj,
@@ -387,12 +395,15 @@ def gen_maze(r, avoid, idx):
                                                                            "t0_link": T0 in sub_rd}}
 
 
-def gen_layout(r, two_code, avoid, data_name="data"):
+def gen_layout(r, two_code, avoid, data_name="data", sizes=None):
     """memories as [name, location, size, [section names]]"""
+    sizes = sizes or {}
     base = r.choice([0x1000, 0x4000, 0x10000, 0x20000, 0x7000]) + r.choice([0, 0, 0x100, 0x40])
     mems = []
     shape = r.random()
     big = 0x10000
+    while big < 2 * sum(sizes.values()) + 0x1000:
+        big *= 2
     if not two_code:
         if shape < 0.4:
             mems = [["flash", base, big, ["code"]], ["ram", base + 0x40000, big, [data_name]]]
@@ -404,15 +415,16 @@ def gen_layout(r, two_code, avoid, data_name="data"):
             mems = [["ram", base + 0x40000, big, [data_name]], ["flash", base, big, ["code"]]]
     else:
         gap = r.choice([0x800, 0x1000, 0x2000, 0x4000, 0x10000])
-        if shape < 0.35:
+        if shape < 0.35 and F_ALIGN not in avoid:
             mems = [["flash", base, 3 * big, ["code", "code2"]], ["ram", base + 0x80000, big, [data_name]]]
-        elif shape < 0.5:
+        elif shape < 0.5 and F_ALIGN not in avoid:
             mems = [["flash", base, 3 * big, ["code2", "code"]], ["ram", base + 0x80000, big, [data_name]]]
         elif shape < 0.6 and F_ALIGN not in avoid:
             mems = [["flash", base, 3 * big, ["code", "code2", data_name]]]
         else:
             # two code images a few KiB apart: cross-image jumps near the boundary
             first, second = ("code", "code2") if r.random() < 0.5 else ("code2", "code")
+            gap = (sizes.get(first, 0x800) + r.choice([0, 0, 4, 16, 64, 256, 1024, 4096]) + 15) // 16 * 16
             mems = [["m1", base, gap, [first]], ["m2", base + gap, 2 * big, [second]],
                     ["ram", base + 0x80000, big, [data_name]]]
             if r.random() < 0.3:
@@ -445,6 +457,8 @@ def build_maze_objects(case):
             k = op[0]
             if k == "sec":
                 st.emit(SectionInstruction(op[1]))
+                for g in sorted(glob):          # cross-object references need the name declared global here too
+                    st.emit(Global(g))
             elif k == "raw":
                 st.current_section.add_data(bytes.fromhex(op[1]))
             elif k == "label":
@@ -482,7 +496,7 @@ def build_maze_objects(case):
             elif k == "pclo":
                 st.emit(ri.Adrlrel(R(op[1]), op[2]))
             elif k == "pclw":
-                st.emit(ri.Loadlrel(R(op[1]), op[2]))
+                st.emit(ri.Loadlrel(R(op[1]), op[2], R(op[1])))
             elif k == "dcd":
                 st.emit(Dcd2(op[1]))
             else:
@@ -1016,7 +1030,15 @@ def llvm_crosscheck(mon):
     if not refdis.available("riscv:rvc"):
         mon.inconclusive.append("llvm-objdump-14 missing: decoder cross-check impossible")
         return
-    jobs = mon.llvm_jobs[:400]
+    jobs, total = [], 0
+    for j in mon.llvm_jobs:            # the relaxed images first, bounded volume per shard
+        if j[3] == "r" and total < 100000:
+            jobs.append(j)
+            total += len(j[4])
+    for j in mon.llvm_jobs:
+        if j[3] == "u" and total < 130000:
+            jobs.append(j)
+            total += len(j[4])
     dec = []
     for k in range(0, len(jobs), 40):
         dec.extend(refdis.decode("riscv:rvc", [j[4] for j in jobs[k:k + 40]]))
